@@ -43,7 +43,7 @@ MANIFEST = dict(
     text="Six seams run on the real code: lib/encoding block coders and lib/compress float coder (default and MLF); record.Marshal/Unmarshal; "
          "FastMarshalMultiRows/FastUnmarshalMultiRows; engine/immutable ChunkDataBuilder/ColumnBuilder + decodeColumnData with null bitmaps, "
          "segment split and pre-aggregation, and MsBuilder -> file -> TSSPFile readers; engine WAL.Write -> replayPhysicRecord. Enumerated without "
-         "randomness: every sequence over a boundary alphabet per type up to length 4 (quick) / 5 (thorough), with null as an extra symbol where "
+         "randomness: every sequence over a boundary alphabet per type up to length 4 (quick) / 6 (thorough), with null as an extra symbol where "
          "the coder takes nulls; every concatenation of <= 3 (column coders) segments from {const, delta, jitter, raw} x lengths "
          "{1,7,8,9,239,240,241,1000} in two value variants; every schema of <= 3 typed columns for records and files; every history of <= 3 "
          "decodes on reused pools; every byte prefix of every row batch and of every WAL image of <= 3 (4) records. Oracle: bit-identical "
